@@ -394,6 +394,7 @@ type srcFile struct {
 	src   []byte
 	splices []splice
 	needImport bool
+	extraImports map[string]string
 }
 
 type weaver struct {
@@ -784,6 +785,21 @@ func (w *weaver) weave(c *Contract) {
 			sf.needImport = true
 		}
 	}
+	// packages the spliced ghost text mentions but the source file does not import
+	have := fileImports(sf.file)
+	for _, sp := range sf.splices {
+		for _, m := range regexp.MustCompile(`\b([A-Za-z_][A-Za-z0-9_]*)\.`).FindAllStringSubmatch(sp.text, -1) {
+			name := m[1]
+			if path, ok := avail[name]; ok {
+				if _, has := have[name]; !has && name != "verifspec" {
+					if sf.extraImports == nil {
+						sf.extraImports = map[string]string{}
+					}
+					sf.extraImports[name] = path
+				}
+			}
+		}
+	}
 	if len(oldUsed)+len(valOldUsed) > 0 {
 		// ghost snapshots of the pointees at function entry (shallow copies)
 		var names []string
@@ -829,6 +845,15 @@ func (w *weaver) overlay() map[string][]byte {
 			// add the import on the package clause line (keeps line numbers)
 			end := sf.fset.Position(sf.file.Name.End()).Offset
 			src = append(src[:end], append([]byte(`; import verifspec "`+verifspecPath+`"`), src[end:]...)...)
+		}
+		var names []string
+		for n := range sf.extraImports {
+			names = append(names, n)
+		}
+		sort.Strings(names)
+		for _, n := range names {
+			end := sf.fset.Position(sf.file.Name.End()).Offset
+			src = append(src[:end], append([]byte(fmt.Sprintf(`; import %s %q`, n, sf.extraImports[n])), src[end:]...)...)
 		}
 		out[sf.path] = src
 	}
